@@ -219,17 +219,29 @@ func c16r6(c *RC) {
 		ok := false
 		ast.Inspect(fl.Body, func(nd ast.Node) bool {
 			if r, isR := nd.(*ast.RangeStmt); isR && expr(r.X) == "funcs" {
-				uses := 0
+				// the recorded file and line go into the location as they are:
+				// each is an argument of the formatting call itself, not of
+				// something that abbreviates it (filepath.Base(file) makes two
+				// Funcs in equally named files of different directories equal)
+				uses := map[string]bool{}
 				ast.Inspect(r.Body, func(m ast.Node) bool {
-					if sel, isS := m.(*ast.SelectorExpr); isS {
-						switch pr.fieldQName(fl.Pkg.FieldOf(sel)) {
-						case ".FuncValue.file", ".FuncValue.line":
-							uses++
+					k, isK := m.(*ast.CallExpr)
+					if !isK {
+						return true
+					}
+					for _, a := range k.Args {
+						if sel, isS := ast.Unparen(a).(*ast.SelectorExpr); isS {
+							switch q := pr.fieldQName(fl.Pkg.FieldOf(sel)); q {
+							case ".FuncValue.file", ".FuncValue.line":
+								if strings.HasPrefix(fl.Pkg.CalleeName(k), "fmt.") {
+									uses[q] = true
+								}
+							}
 						}
 					}
 					return true
 				})
-				if uses >= 2 {
+				if len(uses) == 2 {
 					ok = true
 				}
 			}
